@@ -22,7 +22,7 @@ structure Inv4 (cfg : Cfg) (s : St) : Prop where
 
 theorem inv4_init (cfg : Cfg) (hs : cfg.code.Sound) : Inv4 cfg (init cfg) := by
   unfold init
-  split <;> refine ⟨?_, ?_⟩ <;> simp [hasFail, hs.seqLoop]
+  split <;> refine ⟨?_, ?_⟩ <;> simp [hasFail, hs.seqLoop, hs.seqInit, hs.seqPost, effN_eq hs]
   · split <;> simp [isRetErr, isDone]; omega
   · simp [isRetErr, isDone]
 
@@ -37,7 +37,7 @@ macro_rules
          have ⟨iD, iM, iS, iG, iR, iE⟩ := $h2
          refine ⟨?_, ?_⟩ <;>
            simp [Option.isSome_iff_ne_none, Res.isErr, hasFail, cnt_set hw, isDone, isRetErr, ($hs).workerCancelled,
-             ($hs).workerFailed, ($hs).seqStops, ($hs).seqLoop, ($hs).workerDone, ($hs).fetch, ($hs).counterDelta] at * <;> grind))
+             ($hs).workerFailed, ($hs).seqStops, ($hs).seqLoop, ($hs).seqInit, ($hs).seqPost, effN_eq $hs, ($hs).workerDone, ($hs).fetch, ($hs).counterDelta] at * <;> grind))
 
 theorem inv4_step {cfg : Cfg} (hs : cfg.code.Sound) {s s' : St} {l : Label} (h2 : Inv2 cfg s) (hi : Inv4 cfg s)
     (h : step cfg s l = some s') : Inv4 cfg s' := by
@@ -100,7 +100,7 @@ macro_rules
          have ⟨iD, iM, iS, iG, iR, iE⟩ := $h2
          refine ⟨?_⟩ <;>
            simp [Option.isSome_iff_ne_none, startedCancelled_eq, ctxCancelled, cnt_set hw, isCall, ($hs).workerCancelled,
-             ($hs).workerFailed, ($hs).seqStops, ($hs).seqLoop] at * <;> grind))
+             ($hs).workerFailed, ($hs).seqStops, ($hs).seqLoop, ($hs).seqInit, ($hs).seqPost, effN_eq $hs] at * <;> grind))
 
 theorem inv5_step {cfg : Cfg} (hs : cfg.code.Sound) {s s' : St} {l : Label} (h2 : Inv2 cfg s) (hi : Inv5 cfg s)
     (h : step cfg s l = some s') : Inv5 cfg s' := by
